@@ -78,6 +78,18 @@ def cases(rng, tier):
         out.append(mk_case(p, "random_dag"))
     for i in range(nrand // 5):
         out.append(mk_case(W.diamond_program(rng, "pc" if i % 3 == 0 else "global"), "diamond_across_stages"))
+    # many functions: handles above 255 / 63 must be tracked like any other
+    for nh in ((70, 300) if tier != "thorough" else (70, 130, 300, 600)):
+        p = W.Program()
+        p.globals = [("g0", "storage_rw", 0, 0), ("g1", "uniform", 0, 1)]
+        for j in range(nh):
+            p.helpers.append([("acc", 0, 0, "top")] if j == nh - 2 else [])
+        # the entry calls an early helper with the same index modulo 64 / 256 first, then the one that touches g0
+        tgt = nh - 2
+        p.entries = [("e0", "compute", [("call", tgt % 64, "stmt", "top"), ("call", tgt % 256 if tgt >= 256 else tgt % 64, "let", "top"),
+                                        ("call", tgt, "stmt", "top")]),
+                     ("e1", "fragment", [("acc", 1, 0, "top")])]
+        out.append(mk_case(p, "many_functions"))
     return out
 
 
